@@ -354,7 +354,9 @@ Definition ra_record (start : wsnap) (d : decoder) (r : wrecord) (s : rastate) :
         let up := e_index e - sn_index start - 1 in
         if nlen (ra_ents s) <? up then inr EOutOfRange
         else inl ({| ra_meta := ra_meta s; ra_st := ra_st s; ra_ents := firstn (N.to_nat up) (ra_ents s) ++ [e]; ra_match := ra_match s |}, d)
-      else inl (s, d)
+      else
+        (* an entry at or before the snapshot index was (re)written: what was collected so far is stale *)
+        inl ({| ra_meta := ra_meta s; ra_st := ra_st s; ra_ents := []; ra_match := ra_match s |}, d)
     end
   else if ty =? c_stateType then
     match hs_unmarshal (data_or_nil (r_data r)) with
